@@ -633,3 +633,12 @@ package security
 //@   hyp serverKeyed == (ck != "" && sk != "" && cipher == "AES")
 //@   concl clientKeyed == serverKeyed
 //@ end
+
+// token time claims (C11): boundaries exactly as HTCondor's - expired at now >= exp; too old at now - iat > max age
+//@ func (*Authenticator).validateTokenTiming (a, claims, config) (err)
+//@   props C11
+//@   ensures expiry_enforced_int: [C11] err == nil && claims != nil && has(claims, "exp") && typeis(claims["exp"], "int64") ==> now < unbox(claims["exp"], "int64")
+//@   ensures expiry_enforced_json_number: [C11] err == nil && claims != nil && has(claims, "exp") && typeis(claims["exp"], "float64") ==> now < trunc(unbox(claims["exp"], "float64"))
+//@   ensures expiry_must_be_a_number: [C11] err == nil && claims != nil && has(claims, "exp") ==> typeis(claims["exp"], "float64") || typeis(claims["exp"], "int64") || typeis(claims["exp"], "int")
+//@   ensures age_enforced_json_number: [C11] err == nil && claims != nil && has(claims, "iat") && typeis(claims["iat"], "float64") && config != nil && config.TokenMaxAge > 0 ==> now - trunc(unbox(claims["iat"], "float64")) <= config.TokenMaxAge
+//@   ensures issue_time_must_be_a_number: [C11] err == nil && claims != nil && has(claims, "iat") ==> typeis(claims["iat"], "float64") || typeis(claims["iat"], "int64") || typeis(claims["iat"], "int")
